@@ -47,14 +47,15 @@ def attrs_of(obj):
     try:
         names = list(obj.ncattrs())
     except Exception as ex:
-        return [['<ncattrs raised>', 's:' + repr(ex)]]
+        return [{'k': '<ncattrs raised>', 'v': 's:' + repr(ex), 'ok': False}]
     for k in names:
         try:
             v = obj.getncattr(k) if hasattr(obj, 'getncattr') \
                 else getattr(obj, k)
-            out.append([str(k), tag_attr(v)])
+            out.append({'k': str(k), 'v': tag_attr(v), 'ok': True})
         except Exception as ex:
-            out.append([str(k), '!missing:' + type(ex).__name__])
+            out.append({'k': str(k), 'v': '!missing:' + type(ex).__name__,
+                        'ok': False})
     return out
 
 
@@ -94,11 +95,38 @@ def _cells(arr):
                 break
     if ok:
         return 'int', cells, mask
+    rat = _rational(d, mask)
+    if rat is not None:
+        return rat
     d2 = np.ascontiguousarray(d)
     w = d2.dtype.itemsize
     raw = d2.astype(d2.dtype.newbyteorder('>')).tobytes()
     return 'hex', [('' if mm else raw[i * w:(i + 1) * w].hex())
                    for i, mm in enumerate(mask)], mask
+
+
+def _rational(d, mask):
+    """Cells as exact small rationals num/den (den <= 1000) when every
+    unmasked float is within 2e-6 relative of one; None otherwise."""
+    from fractions import Fraction
+    if d.dtype.kind != 'f':
+        return None
+    nums, dens = [], []
+    for x, mm in zip(d.tolist(), mask):
+        if mm:
+            nums.append(0)
+            dens.append(1)
+            continue
+        if x != x or x in (float('inf'), float('-inf')) or abs(x) > 1e6:
+            return None
+        fr = Fraction(x).limit_denominator(1000)
+        if abs(float(fr) - x) > 2e-6 * max(1.0, abs(x)):
+            return None
+        if abs(fr.numerator) > BIG:
+            return None
+        nums.append(fr.numerator)
+        dens.append(fr.denominator)
+    return 'rat', (nums, dens), mask
 
 
 def project_var(name, v, data=True):
@@ -128,6 +156,8 @@ def project_var(name, v, data=True):
     rec['masked'] = bool(isinstance(arr, np.ma.MaskedArray))
     if data:
         rec['enc'], rec['cells'], rec['mask'] = _cells(arr)
+        if rec['enc'] == 'rat':
+            rec['cells'], rec['den'] = rec['cells']
     rec['attrs'] = attrs_of(v)
     return rec
 
@@ -139,7 +169,7 @@ def project(f, data=True):
             unl = bool(d.isunlimited())
         except Exception:
             unl = False
-        dims.append([str(k), int(len(d)), unl])
+        dims.append({'n': str(k), 'len': int(len(d)), 'u': unl})
     vs = []
     for k in list(f.variables.keys()):
         vs.append(project_var(k, f.variables[k], data=data))
